@@ -147,7 +147,7 @@ func oracleTypedDec(mode string, b []byte) (msg string, accepted bool) {
 	}()
 	select {
 	case <-done:
-	case <-time.After(20 * time.Second):
+	case <-time.After(decodeTimeout):
 		return pre + "does not terminate", false
 	}
 	switch {
@@ -179,10 +179,19 @@ func emitTypedDec(c *hxlib.Ctx, kind, mode string, b []byte) {
 				Input:      map[string]interface{}{"t": "typed", "v": typedIn{Mode: mode, Hex: hex.EncodeToString(b)}},
 				Nontrivial: true, OracleErr: fmt.Sprintf("typed(%s) decoding %s: ", mode, trunc(b)) + crashMsg})
 		}
+		severe++
 		return
 	}
 	announce(key)
+	if len(crashers) > 0 && !scanning && dies("typed", mode, hex.EncodeToString(b)) {
+		c.Emit(hxlib.Case{Kind: "typed-" + kind + "/crash", Key: key,
+			Input:      map[string]interface{}{"t": "typed", "v": typedIn{Mode: mode, Hex: hex.EncodeToString(b)}},
+			Nontrivial: true, OracleErr: fmt.Sprintf("typed(%s) decoding %s: ", mode, trunc(b)) + crashMsg})
+		severe++
+		return
+	}
 	msg, acc := oracleTypedDec(mode, b)
+	noteSevere(msg)
 	if acc {
 		kind += "/accepted"
 	} else {
@@ -211,6 +220,10 @@ func genTyped(c *hxlib.Ctx) {
 	}
 	modes := []string{"any", "any", "obj", "pobj", "pdict"}
 	for i := 0; i < c.N(900); i++ {
+		if severe >= severeCap {
+			c.Note("typed malformed stream cut after %d inputs", i)
+			break
+		}
 		s := seeds[r.Intn(len(seeds))]
 		mode := modes[r.Intn(len(modes))]
 		var b []byte
@@ -233,9 +246,12 @@ func genTyped(c *hxlib.Ctx) {
 		case x < 78:
 			kind = "truncated"
 			b = s[:r.Intn(len(s))]
-		case x < 90:
+		case x < 84:
 			kind = "hostile-size"
 			b = hostile(r)
+		case x < 90:
+			kind = "nested-hostile-size"
+			b = nestedHostile(r)
 		default:
 			kind = "random"
 			b = randomBytes(r)
